@@ -66,8 +66,9 @@ VerdictC(p, e, s) ==
               \* an empty message matches nothing in any sequential order: it is never written to; a matching message
               \* only gains the bits of the transaction's outpoint 0 under its own tweak
               LET fa == Loaded(e.nbytes, e.nhash, e.ta, 1, SetOfSeq(e.init))
-                  op0 == Bip37Idx(fa, OutPointBytes(e.txid, <<0, 0>>))
-              IN IF Len(e.bdirty) > 0 THEN V("update-applied-to-a-message-that-never-matched", {}, e.bdirty)
+                  op0 == Bip37Idx(fa, OutPointBytes(e.txid, <<0, IF "oidx" \in DOMAIN e THEN e.oidx ELSE 0>>))
+              IN IF Len(e.bdirty) > 0 /\ "flagsmode" \in DOMAIN e /\ e.flagsmode THEN V("outpoint-inserted-into-a-message-that-forbids-updates", {}, e.bdirty)
+                 ELSE IF Len(e.bdirty) > 0 THEN V("update-applied-to-a-message-that-never-matched", {}, e.bdirty)
                  ELSE IF ~(SetOfSeq(e.aextra) \subseteq op0) THEN V("lost-or-spurious-outpoint-update", op0, e.aextra)
                  ELSE OK
          [] e.op = "LoadedRound" ->
